@@ -154,7 +154,8 @@ def gen_cases(tier, seed):
     ng = 120 if tier == 'quick' else 4000
     names = ['../evil', '../../evil2', '/abs_evil', 'sub/../../evil3',
              'ok.txt', 'dir', '..', '.', 'a/b', '/tmp/vf_c13_abs',
-             '..\\evil4', 'x\x00y', 'lnk', '', ' ', 'ok2']
+             '..\\evil4', 'x\x00y', 'lnk', '', ' ', 'ok2', 'sub/..',
+             'dir/.', 'a/../..', 'ok.txt/..']
     for i in range(ng):
         entries = []
         for _ in range(rng.choice([1, 2, 3, 5])):
